@@ -20,6 +20,11 @@ func (r *FragRule) RunPass(ctx *Context, pass Pass) {
 			Pos: r.Bounds().Begin,
 		}
 
+		// The state machine stops interpreting the actions of a rule at the
+		// first @discard or @emit. That action is therefore kept aside and added
+		// last, so that the other actions take effect regardless of the order
+		// they were written in.
+		var last mode.Action
 		hasDiscard := false
 		hasEmit := false
 		for _, actAST := range r.Actions {
@@ -33,6 +38,8 @@ func (r *FragRule) RunPass(ctx *Context, pass Pass) {
 					return
 				}
 				hasDiscard = true
+				last = act
+				continue
 			case mode.ActionAccept:
 				if hasEmit {
 					ctx.Errs.Errorf(
@@ -41,14 +48,10 @@ func (r *FragRule) RunPass(ctx *Context, pass Pass) {
 					return
 				}
 				hasEmit = true
+				last = act
+				continue
 			}
 			actions.Actions = append(actions.Actions, act)
-		}
-
-		if !hasDiscard && !hasEmit {
-			actions.Actions = append(actions.Actions, mode.Action{
-				Type: mode.ActionAccum,
-			})
 		}
 
 		if hasDiscard && hasEmit {
@@ -57,6 +60,13 @@ func (r *FragRule) RunPass(ctx *Context, pass Pass) {
 				"@frag cannot be discarded and emitted at the same time")
 			return
 		}
+
+		if !hasDiscard && !hasEmit {
+			last = mode.Action{
+				Type: mode.ActionAccum,
+			}
+		}
+		actions.Actions = append(actions.Actions, last)
 
 		nfaCons.E.Data = actions
 		ctx.CurrentLexerMode.Peek().AddRule(*nfaCons)
